@@ -239,6 +239,20 @@ Fixpoint sys_run_d (s : sys) (l : list (op * bool)) : sys * list (option out) :=
       let '(s2, xs) := sys_run_d s1 r in (s2, x :: xs)
   end.
 
+(* QMI_RpcProxy.lock(timeout > 0): a bounded retry of the same ACQUIRE.  Every attempt is a complete
+   request/reply exchange (the proxy waits for the reply to EVERY ACQUIRE it sent, however long the object is
+   busy, before it looks at the clock again); between two attempts other proxies act ([gaps]); the result is
+   the outcome of the LAST attempt.  No ACQUIRE of the call is still queued when lock() returns. *)
+Fixpoint lock_retry (s : sys) (p : nat) (t : token) (gaps : list (list op)) {struct gaps} : sys * bool :=
+  let s1 := fst (sys_step s (OLock p t)) in
+  match snd (sys_step s (OLock p t)) with
+  | OutBool true => (s1, true)
+  | _ => match gaps with
+         | [] => (s1, false)
+         | g :: r => lock_retry (fst (sys_run s1 g)) p t r
+         end
+  end.
+
 (* ---------------------------------------------------------------------------------------------- *)
 (* Token source and client programs (automatic tokens)                                            *)
 (* ---------------------------------------------------------------------------------------------- *)
